@@ -16,7 +16,9 @@ RULE = (
     "one consumer (optionally topic-filtered) drains a queue while one producer enqueues distinguishable immediate messages: "
     "queue lengths 1-40 (shorter and longer than the Redis fetch window of 10; window knob 2-3 in part of the runs), 1-3 "
     "priorities, foreign-topic messages mixed in, producer either finished before the consumer starts or keeping the backlog "
-    "non-empty, some messages rejected and consumed again. Oracle: for matching messages A, B of equal priority where "
+    "non-empty, some messages rejected and consumed again; in a third of the in-memory/Redis runs another task pauses and "
+    "unpauses the consumer 1-3 times while its consume() may be waiting (RabbitMQ: pause bounces deliveries by design, not "
+    "asserted). Oracle: for matching messages A, B of equal priority where "
     "enqueue(A) returned before enqueue(B) was called and neither was returned in between, A is delivered before B; a rejected "
     "message is delivered again before any message enqueued after the reject returned; overtaking depth is reported. "
     "non-trivial = at least 3 comparable deliveries; distinct = interleaving digest."
@@ -44,7 +46,15 @@ def gen(rng, broker, tier):
             if m["reject"]:
                 m["pause_us"] = rng.choice([0, 2000, 30_000, 200_000])
         msgs.append(m)
-    return {"msgs": msgs, "topics": rng.choice([None, ["t1"], ["t1"]]),
+    pauses = []
+    if rng.random() < 0.35 and broker != "rabbit":
+        # another task pauses/unpauses the consumer while its consume() may be waiting (back-pressure from outside).
+        # Not on RabbitMQ: its consumer implements pause by bouncing whatever is delivered meanwhile (basic.reject after
+        # 0.1 s), which reorders by design; the property quantifies over enqueue/consume interleavings only, so the pause
+        # dimension is asserted where the current code keeps the order (in-memory, Redis) and not claimed for RabbitMQ.
+        pauses = [{"at_us": rng.choice([0, 500, 20_000, rng.randint(0, 400_000)]), "dur_us": rng.choice([500, 5000, 150_000])}
+                  for _ in range(rng.randint(1, 3))]
+    return {"msgs": msgs, "pauses": pauses, "topics": rng.choice([None, ["t1"], ["t1"]]),
             "consumer_start_us": rng.choice([0, 0, 1000, 100_000, 10_000_000]),
             "think_us": rng.choice([0, 0, 500, 20_000]),
             "knobs": {"step_cost": rng.choice([0, 0, 1, "rand"]),
@@ -100,6 +110,7 @@ async def _main(sim, sc, out):
             await asyncio.sleep(sc["consumer_start_us"] / 1e6)
         cons = mb.get_consumer("q", topics, None)
         await cons.start()
+        cur["cons"] = cons
         done: set = set()
         rejected_once: set = set()
         idle = 0
@@ -109,9 +120,13 @@ async def _main(sim, sc, out):
                 key, payload, params = res
             else:
                 idle += 1
+                cur["cons"] = None
+                while cur["busy"]:
+                    await asyncio.sleep(0.001)
                 await cons.finish()
                 cons = mb.get_consumer("q", topics, None)
                 await cons.start()
+                cur["cons"] = cons
                 continue
             idle = 0
             deliveries.append((rec._next(), key.id_))
@@ -130,9 +145,30 @@ async def _main(sim, sc, out):
             else:
                 await mb.ack(key)
                 done.add(key.id_)
+        cur["cons"] = None
+        while cur["busy"]:
+            await asyncio.sleep(0.001)
         await cons.finish()
         return done
 
+    cur = {"cons": None, "busy": False}
+
+    async def pauser(pz):
+        await asyncio.sleep((sc["consumer_start_us"] % 10_000_000 + pz["at_us"]) / 1e6)
+        c_ = cur["cons"]
+        if c_ is None or cur["busy"]:
+            return
+        cur["busy"] = True
+        try:
+            await c_.pause()
+            sim.count("consumer-paused-from-outside")
+            await asyncio.sleep(pz["dur_us"] / 1e6)
+            await c_.unpause()
+        finally:
+            cur["busy"] = False
+
+    for pz in sc.get("pauses", []):
+        sim.loop.spawn("c", pauser(pz))
     pt = sim.loop.spawn("p", produce())
     ct = sim.loop.spawn("c", consume_all())
     await pt
